@@ -34,6 +34,7 @@ StageDecl(kid, hz, t0v, Tv, withInt) ==
                        !.cons = <<K1, K4>>,
                        !.obj = IF withInt THEN <<O1, IntQ(1), O8>> ELSE <<O1, O3>>,
                        !.quads = IF withInt THEN <<Q1>> ELSE <<>>]
+      d1q == d1
   IN CASE hz = "num" -> [d1 EXCEPT !.t0 = Num(t0v), !.T = Num(Tv)]
        [] hz = "fT"  -> [d1 EXCEPT !.t0 = Num(t0v), !.T = Free(Tv)]
        [] hz = "fb"  -> [d1 EXCEPT !.t0 = Free(t0v), !.T = Free(Tv)]
@@ -43,7 +44,7 @@ ProbeOf(d, s) ==
   IN [X |-> Tup([k \in 1..N + 1 |-> Tup([i \in 1..Len(d.states) |-> PV(s, 1, k, i)])]),
       U |-> Tup([k \in 1..N |-> Tup([i \in 1..Len(d.controls) |-> PV(s, 2, k, i)])]),
       V |-> Tup([i \in 1..Len(d.vars) |-> Tup([c \in 1..PCols(d.vars[i].kind, N) |-> PV(s, 3, i, c)])]),
-      T |-> d.T.v, t0 |-> d.t0.v, gv |-> [Tl |-> <<>>, t0l |-> <<>>],
+      T |-> d.T.v, t0 |-> d.t0.v, gv |-> [Tl |-> <<>>, t0l |-> <<>>], pw |-> Q(3, 2),
       XI |-> Tup([k \in 1..N |-> Tup([l \in 1..d.method.M |-> Tup([i \in 1..Len(d.states) |-> PV(s, 4, k + l, i)])])]),
       XR |-> Tup([k \in 1..N |-> Tup([l \in 1..d.method.M |-> Tup([j \in 1..d.method.degree |-> Tup([i \in 1..Len(d.states) |-> PV(s, 5 + j, k + 2 * l, i)])])])]),
       ZR |-> Tup([k \in 1..N |-> Tup([l \in 1..d.method.M |-> Tup([j \in 1..d.method.degree |-> <<>>])])])]
@@ -55,6 +56,9 @@ Couple(pat, n) ==
     [] pat = "time"  -> Tup([s \in 1..n - 1 |-> [cid |-> "pt" \o ToString(s), rel |-> "eq", lhs |-> St(s + 1, T0), rhs |-> St(s, TF)]])
                         \o <<[cid |-> "pT", rel |-> "le", lhs |-> St(n, TF), rhs |-> CI(20)]>>
 ParentObj(pat, n) == IF pat = "time" THEN <<Times(CI(3), St(n, TF))>> ELSE <<>>
+\* the parent owns a global variable and a global parameter of its own (used in a parent constraint and objective term)
+ParentExtraCons(n) == <<[cid |-> "pw", rel |-> "le", lhs |-> St(n, AtTf(X(1))), rhs |-> Plus(CI(30), Times(PW, PQ))]>>
+ParentExtraObj == <<Times(CI(5), Sq(Minus(PW, Times(CI(2), PQ))))>>
 
 \* clones of one template get their own parameter values (set_value on the clone): shift the values of clone i by i-1
 ShiftParams(d, k) == [d EXCEPT !.params = Tup([j \in 1..Len(d.params) |-> [kind |-> d.params[j].kind,
@@ -64,21 +68,23 @@ MkMulti(s) ==
       sd(i) == StageDecl(IF s.clone THEN s.kinds[1] ELSE s.kinds[i], s.hz,
                          R(i - 1), IF i % 2 = 1 THEN R(KindOf(IF s.clone THEN s.kinds[1] ELSE s.kinds[i]).N) ELSE R(2), s.withInt)
   IN [stages |-> Tup([i \in 1..n |-> IF s.clone THEN ShiftParams(sd(i), i - 1) ELSE sd(i)]),
-      pcons |-> Couple(s.pat, n), pobj |-> ParentObj(s.pat, n), clone |-> s.clone,
+      pcons |-> Couple(s.pat, n) \o (IF s.pown THEN ParentExtraCons(n) ELSE <<>>),
+      pobj |-> ParentObj(s.pat, n) \o (IF s.pown THEN ParentExtraObj ELSE <<>>), clone |-> s.clone, pown |-> s.pown,
       \* history variant (C12.h): after a first transcription the stage-1 parameter (if any) is set again and stage 1 gets one more constraint
       reset |-> s.reset, stagefirst |-> s.stagefirst]
 
 KindSeqs == {<<a>> : a \in KindIds} \cup {<<a, b>> : a \in KindIds, b \in KindIds}
             \cup (IF Thorough THEN {<<a, b, c>> : a \in {"A", "B"}, b \in KindIds, c \in {"C", "D"}} ELSE {<<"A", "B", "D">>, <<"B", "C", "A">>})
 Space == {s \in [kinds : KindSeqs, hz : {"num", "fT", "fb"}, pat : {"none", "chain", "time"}, clone : BOOLEAN, withInt : BOOLEAN,
-                 reset : BOOLEAN, stagefirst : BOOLEAN, seed : {Seed}] :
+                 reset : BOOLEAN, stagefirst : BOOLEAN, pown : BOOLEAN, seed : {Seed}] :
             /\ (s.pat = "time" => s.hz = "fb")
-            /\ (s.stagefirst => ~s.reset /\ s.withInt)       \* the first transcribing call is stage.sample(...) on a sub-stage
+            /\ (s.stagefirst => ~s.reset /\ s.withInt)
+            /\ (s.pown => ~s.reset /\ ~s.stagefirst /\ s.pat # "time")       \* the first transcribing call is stage.sample(...) on a sub-stage
             /\ (s.clone => \A i \in 1..Len(s.kinds) : s.kinds[i] = s.kinds[1])
             /\ (s.reset => KindOf(s.kinds[1]).rhs \in {"R2", "R3", "R4"} /\ ~s.clone)
             /\ (s.withInt => \A i \in 1..Len(s.kinds) : KindOf(s.kinds[i]).rhs # "R7")
             /\ (s.reset => KindOf(s.kinds[1]).rhs # "R7")}
-Code(s) == (IF s.stagefirst THEN 2 ELSE 0) + Len(s.kinds) + (IF s.clone THEN 3 ELSE 0) + (IF s.withInt THEN 1 ELSE 0) + (IF s.reset THEN 5 ELSE 0)
+Code(s) == (IF s.pown THEN 1 ELSE 0) + (IF s.stagefirst THEN 2 ELSE 0) + Len(s.kinds) + (IF s.clone THEN 3 ELSE 0) + (IF s.withInt THEN 1 ELSE 0) + (IF s.reset THEN 5 ELSE 0)
            + (CASE s.hz = "num" -> 0 [] s.hz = "fT" -> 1 [] OTHER -> 2) + (CASE s.pat = "none" -> 0 [] s.pat = "chain" -> 7 [] OTHER -> 11)
            + (CASE s.kinds[1] = "A" -> 0 [] s.kinds[1] = "B" -> 1 [] s.kinds[1] = "C" -> 2 [] s.kinds[1] = "E" -> 4 [] OTHER -> 3)
 Init == sc \in {s \in Space : Code(s) % Parts = Part}
